@@ -10,10 +10,12 @@ import (
 	"github.com/ipfs/go-graphsync/notifications"
 )
 
-// RequestCloser can cancel request on a network error
+// RequestCloser can cancel request on a network error. Both calls only apply to the response
+// the given subscriber was created for: by the time a message notification is handled, the
+// request ID may already be in use by a newer response (of the same or of another peer).
 type RequestCloser interface {
-	TerminateRequest(requestID graphsync.RequestID)
-	CloseWithNetworkError(requestID graphsync.RequestID)
+	TerminateRequest(requestID graphsync.RequestID, sub *subscriber)
+	CloseWithNetworkError(requestID graphsync.RequestID, sub *subscriber)
 }
 
 type subscriber struct {
@@ -33,10 +35,10 @@ func (s *subscriber) OnNext(_ notifications.Topic, event notifications.Event) {
 	}
 	switch responseEvent.Name {
 	case messagequeue.Error:
-		s.requestCloser.CloseWithNetworkError(s.request.ID())
+		s.requestCloser.CloseWithNetworkError(s.request.ID(), s)
 		responseCode := responseEvent.Metadata.ResponseCodes[s.request.ID()]
 		if responseCode.IsTerminal() {
-			s.requestCloser.TerminateRequest(s.request.ID())
+			s.requestCloser.TerminateRequest(s.request.ID(), s)
 		}
 		s.networkErrorListeners.NotifyNetworkErrorListeners(s.p, s.request, responseEvent.Err)
 	case messagequeue.Sent:
@@ -46,7 +48,7 @@ func (s *subscriber) OnNext(_ notifications.Topic, event notifications.Event) {
 		}
 		responseCode := responseEvent.Metadata.ResponseCodes[s.request.ID()]
 		if responseCode.IsTerminal() {
-			s.requestCloser.TerminateRequest(s.request.ID())
+			s.requestCloser.TerminateRequest(s.request.ID(), s)
 			s.completedListeners.NotifyCompletedListeners(s.p, s.request, responseCode)
 		}
 	}
